@@ -553,7 +553,7 @@ COMMA_SEQIDS = [("ctg,7", ["7", "ctg"]), ("chr1,chr2", ["chr1", "chr2"]), ("a,b"
 def comma_feats(rng):
     """Start-ordered rows in 1..3 clusters: the first feature of a cluster lies on a seqid that holds a comma ('ctg,7'), the
     following ones overlap it (75%; else touch it or leave a gap) and lie on a seqid equal to one of its comma-separated parts
-    ('7', 'ctg'; 70%), on the comma seqid itself (at most one more per cluster), on another comma seqid built from the same
+    ('7', 'ctg'; 70%), on the comma seqid itself, on another comma seqid built from the same
     parts ('7,ctg') or on an unrelated one; strand and type are shared inside a cluster in 75% of the clusters."""
     out = []
     pos = rng.choice([1, 1, 100, 131000, 2 ** 20 - 40])
@@ -561,6 +561,7 @@ def comma_feats(rng):
         name, parts = rng.choice(COMMA_SEQIDS)
         strand, ftype = rng.choice(STRANDS), rng.choice(TYPES)
         mixed = rng.random() < 0.25
+        same_seqid = rng.random() < 0.3              # the whole cluster lies on the comma seqid itself
         a = pos + rng.randrange(0, 6)
         b = a + rng.randrange(8, 40)
         out.append([name, strand, ftype, a, b])
@@ -575,10 +576,12 @@ def comma_feats(rng):
                 x = end + rng.randrange(2, 6)            # detached
             y = x + rng.choice([0, 1, 3, 8, 13, 30])
             r = rng.random()
-            if r < 0.7:
+            if same_seqid:
+                seqid = name
+            elif r < 0.7:
                 seqid = rng.choice(parts)
-            elif r < 0.82 and own == 0:
-                seqid, own = name, 1
+            elif r < 0.82:
+                seqid, own = name, own + 1               # any number of further features on the comma seqid itself (F-C16-3)
             elif r < 0.92:
                 seqid = ",".join(reversed(name.split(",")))
             else:
